@@ -319,6 +319,44 @@ def _check_dataset_front_end(t: Tally, work):
             os.unlink(pth)
 
 
+def _check_interleaved_options(t: Tally):
+    """Two generators of ONE definition, both reassembling, with different secondary-header lengths (an option of the call, not of the
+    definition), advanced alternately in every order of starting: each combines its groups with its own length."""
+    defn = header_only_definition()
+
+    def groups(k, apid, base):
+        sh = bytes(range(0xE0, 0xE0 + k))
+        out, want = [], []
+        for gi in range(3):
+            segs = [framing.mk_packet(sh + bytes([16 * gi + j]), apid=apid, seqflags=f, seqcount=base + 3 * gi + j, shflag=1 if k else 0)
+                    for j, f in enumerate((1, 0, 2))]
+            out += segs
+            want.append(segs[0] + b"".join(q[6 + k:] for q in segs[1:]))
+        return b"".join(out), want
+    for ka, kb in ((2, 0), (0, 3), (1, 4)):
+        for first in ("a", "b"):
+            sa, wa = groups(ka, 0x11, 10)
+            sb, wb = groups(kb, 0x22, 500)
+            with observed_warnings():
+                ga = defn.packet_generator(sa, combine_segmented_packets=True, secondary_header_bytes=ka)
+                gb = defn.packet_generator(sb, combine_segmented_packets=True, secondary_header_bytes=kb)
+                got = {"a": [], "b": []}
+                order = [("a", ga), ("b", gb)] if first == "a" else [("b", gb), ("a", ga)]
+                try:
+                    for _ in range(3):
+                        for nm, g in order:
+                            got[nm].append(bytes(next(g).raw_data))
+                except Exception as e:  # noqa: BLE001
+                    got["a"].append(f"raised {type(e).__name__}".encode())
+            t.evals += 1
+            t.traces += 1
+            t.nontrivial += 1
+            if got["a"] != wa or got["b"] != wb:
+                t.violation({"kind": "reassembly", "interleaved_generators": True}, {"interleaved_options": True, "secondary_header_bytes": [ka, kb], "first": first},
+                            expected=[w.hex() for w in wa + wb], observed=[g.hex() for g in got["a"] + got["b"]],
+                            note="two generators of one definition with different secondary-header lengths: a group was combined with the other generator's length")
+
+
 def run(ctx):
     tasks = []
     max_len = 4 if ctx.quick else 6
@@ -339,6 +377,7 @@ def run(ctx):
     tally.merge(fan_out(_task_wide_groups, [{"n": n, "reverse": r, "continuation": c} for n in (3, 129, 257, 300, 1025, 2048) for r in (False, True) for c in (False, True)],
                         jobs=ctx.jobs, seed=ctx.seed))
     _check_dataset_front_end(tally, ctx.work)
+    _check_interleaved_options(tally)
     # distinct model states: recompute cheaply over all histories of length <= 4 (the model is tiny)
     states = set()
     for n in range(1, 5):
@@ -364,6 +403,10 @@ def run(ctx):
 
 
 def replay(case):
+    if case.get("interleaved_options"):
+        t = Tally()
+        _check_interleaved_options(t)
+        return next((v for v in t.violations if v["case"].get("secondary_header_bytes") == case.get("secondary_header_bytes") and v["case"].get("first") == case.get("first")), None)
     if case.get("dataset_front_end"):
         from mc import VERIF_ROOT
         import os
